@@ -1533,7 +1533,7 @@ CaseX86M_GPB_MulDiv:
         const Imm& imm0 = o0.as<Imm>();
         const Imm& imm1 = o1.as<Imm>();
 
-        if (imm0.value() > 0xFFFFu || imm1.value() > 0xFFFFFFFFu)
+        if (imm0.value_as<uint64_t>() > 0xFFFFu || imm1.value_as<uint64_t>() > 0xFFFFFFFFu)
           goto InvalidImmediate;
 
         opcode = alt_opcode_of(inst_info);
